@@ -48,6 +48,13 @@ def clientOK (acc : List (String × List String)) : Bool :=
     operations. -/
 theorem parser_is_client : clientOK Gen.C07.byteAccess = true := by decide +kernel
 
+/-- `Parser.next` is the only function allowed above that is not wholly a modelled primitive: it may
+    mention `p.bs` / `p.bsp` exactly as often as its stop-word test does (4 times each: the lookahead
+    loop condition and the prefix comparison).  Any further direct access to the buffer from the
+    token-level lexer (a fast path that skips `rune`, say) has to be reviewed and modelled. -/
+theorem next_touches_buffer_only_in_stop_test :
+    Gen.C07.nextMentions = [("bs", 4), ("bsp", 4)] := by decide
+
 /-! ## the simulation relation -/
 
 /-- Two states of the chunked byte source (different schedules, different buffers) that present
